@@ -2,7 +2,6 @@ import numpy as np
 from sklearn.metrics import pairwise_distances
 
 from ..core.individual import Individual
-from ..core.problem import get_function_problem
 
 
 class R5SSelection:
@@ -17,8 +16,8 @@ class R5SSelection:
     def __call__(self, individuals: list[Individual], n: int = 5) -> list[Individual]:
         if len(individuals) <= n:
             return individuals
-        minimize = not get_function_problem(individuals[0].problem).maximize
-        sorted_individuals = sorted(individuals, reverse=minimize)
+        # Best first: the ordering of individuals already follows the problem's direction.
+        sorted_individuals = sorted(individuals, reverse=True)
         distances = self._get_distances(sorted_individuals)
         nearest_distances = self._get_nearest_distances(distances)
         nearest_better_distances = self._get_nearest_better_distances(distances)
